@@ -54,6 +54,7 @@ type OpenHist struct {
 	Max   int    `json:"max"`
 	Rule  string `json:"rule"`
 	Hands int    `json:"hands"`
+	Churn bool   `json:"button_churn,omitempty"` // after every hand a button-seat player may go and a newcomer take that very seat without sitting in
 	Note  string `json:"note,omitempty"`
 }
 
@@ -204,11 +205,11 @@ func runOpenHist(h *OpenHist) []OpenCase {
 			if r.Chance(1, 3) {
 				arrive(!r.Chance(1, 6))
 			}
-			if r.Chance(1, 6) && len(a.Players) > 2 {
+			if (r.Chance(1, 6) || (h.Churn && r.Chance(1, 2))) && len(a.Players) > 2 {
 				p := a.Players[r.Intn(len(a.Players))]
 				// now and then it is the small blind or the dealer of the hand just played who goes
 				for _, q := range a.Players {
-					if (q.Seat == a.SB || q.Seat == a.Dealer) && r.Chance(1, 3) {
+					if (q.Seat == a.SB || q.Seat == a.Dealer) && (r.Chance(1, 3) || h.Churn) {
 						p = q
 					}
 				}
@@ -216,7 +217,7 @@ func runOpenHist(h *OpenHist) []OpenCase {
 					delete(fresh, p.ID)
 					delete(waiting, p.ID)
 					delete(missed, p.ID)
-					if r.Chance(1, 2) {
+					if r.Chance(1, 2) || h.Churn {
 						// a newcomer reserves the very seat that was vacated and does not sit in before the next hand
 						wantSeat = p.Seat
 						arrive(false)
@@ -340,7 +341,10 @@ func runOpen(opt Opts) error {
 		root := NewRNG(opt.Seed)
 		for i := 0; i < opt.N; i++ {
 			r := root.Fork(uint64(i))
-			h := OpenHist{Index: i, Seed: opt.Seed*1000033 + uint64(i), Max: 2 + r.Intn(9), Rule: "default", Hands: 6 + r.Intn(10)}
+			h := OpenHist{Index: i, Seed: opt.Seed*1000033 + uint64(i), Max: 2 + r.Intn(9), Rule: "default", Hands: 6 + r.Intn(10), Churn: i%4 == 1}
+			if h.Churn && h.Max < 5 {
+				h.Max = 5 + r.Intn(5)
+			}
 			if opt.Mode == "short" || (opt.Mode == "" && r.Chance(1, 6)) {
 				h.Rule = "short_deck"
 			}
